@@ -162,7 +162,19 @@ def c03rig_copy(rng):
     return g
 
 
-def classify_failure(res, tx, start, status, detail):
+def gap_after_earlier_tx(segs):
+    """samples between the end of the last earlier transmission of the lead-in and the start of the transmission; None if there is none"""
+    gap = None
+    for sg in segs:
+        t = sg.split()
+        if t[:2] == ["seg", "tx"]:
+            gap = 0
+        elif gap is not None:
+            gap += int(t[2])
+    return gap
+
+
+def classify_failure(res, tx, start, status, detail, segs=()):
     """stable key of an acquisition failure, from what the run itself shows"""
     sf = c03rig.stream_frames_after(res, start)
     fin = res.get("dcd_final")
@@ -180,7 +192,11 @@ def classify_failure(res, tx, start, status, detail):
     costs = [c for _, _, c in sf[:100]]
     if locked_all and len(sf) >= 100 and bit_exact == 0 and costs and sorted(costs)[len(costs) // 2] < 80:
         detail["median_cost_of_first_100_callbacks"] = sorted(costs)[len(costs) // 2]
-        return "deaf-coasting-on-garbage"
+        gap = gap_after_earlier_tx(segs)
+        detail["gap_after_earlier_transmission_samples"] = gap
+        # the recorded finding is about an earlier transmission followed by a SHORT gap (< 0.25 s); the same symptom after any
+        # other history is a different failure
+        return "deaf-coasting-on-garbage" if gap is not None and gap <= 12000 else "deaf-coasting-on-garbage-other-history"
     return "acquired-late" if status == "late" else "not-acquired-within-400-frames"
 
 
@@ -206,9 +222,13 @@ def run(ctx):
         # the property-level reading of that comparison, on the real code alone: a finite level must stay finite
         for c, i in zip(dcases, impl_lines):
             t, o = c.split(), i.split()
-            lv = float.fromhex(t[0]) if t[0] not in ("nan", "inf", "-inf") else float(t[0])
-            if lv == lv and abs(lv) != float("inf") and o[4] != "1":
-                ctx.violation("dcd-nan-latch", "DataCarrierDetect::update() turned a finite level_ into a non-finite one (it never leaves the average again)",
+            def val(x):
+                return float(x) if x in ("nan", "inf", "-inf") else float.fromhex(x)
+            lv, a1, a2 = val(t[0]), val(t[1]), val(t[2])
+            reachable = all(v == v and abs(v) != float("inf") for v in (lv, a1, a2)) and a1 >= 0 and a2 >= 0   # finite level, finite energies >= 0
+            if reachable and len(t) == 4 and o[4] != "1":
+                ctx.violation("dcd-update-nonfinite", "DataCarrierDetect::update() turned a finite level_ into a non-finite one from finite non-negative "
+                              "block energies (it never leaves the average again)",
                               {"members_before": {"level_": t[0], "level_1": t[1], "level_2": t[2], "triggered_": t[3]},
                                "after_update": {"level_": o[0], "triggered_": o[1]}, "replay_cmd": f"echo '{c}' | {exe} dcd"})
                 break
@@ -255,7 +275,7 @@ def run(ctx):
             acq.append(detail["steady_reached_at_frame"])
             continue
         start = r["main"][-1]
-        kkey = classify_failure(r, c["tx"], start, status, detail)
+        kkey = classify_failure(r, c["tx"], start, status, detail, c["segs"])
         ctx.violation(kkey, "after this history the real demodulator did not reach steady reception (carrier detect + eight consecutive bit-exact frames) "
                             "within 400 frames of the start of a clean transmission",
                       {"case_file": r["case_file"], "replay_cmd": f"{exe} run {r['case_file']}", "parameters": par,
